@@ -25,28 +25,44 @@ pub fn run(m: &mut Module) {
         }
     }
     for id in unused_imports {
+        #[cfg(walrus_verif)]
+        crate::verif::emit("swept", "imports", id.index() as i64, -1);
         m.imports.delete(id);
     }
 
     for id in unused(&used.tables, m.tables.iter().map(|t| t.id())) {
+        #[cfg(walrus_verif)]
+        crate::verif::emit("swept", "tables", id.index() as i64, -1);
         m.tables.delete(id);
     }
     for id in unused(&used.globals, m.globals.iter().map(|t| t.id())) {
+        #[cfg(walrus_verif)]
+        crate::verif::emit("swept", "globals", id.index() as i64, -1);
         m.globals.delete(id);
     }
     for id in unused(&used.memories, m.memories.iter().map(|t| t.id())) {
+        #[cfg(walrus_verif)]
+        crate::verif::emit("swept", "memories", id.index() as i64, -1);
         m.memories.delete(id);
     }
     for id in unused(&used.data, m.data.iter().map(|t| t.id())) {
+        #[cfg(walrus_verif)]
+        crate::verif::emit("swept", "data", id.index() as i64, -1);
         m.data.delete(id);
     }
     for id in unused(&used.elements, m.elements.iter().map(|t| t.id())) {
+        #[cfg(walrus_verif)]
+        crate::verif::emit("swept", "elements", id.index() as i64, -1);
         m.elements.delete(id);
     }
     for id in unused(&used.types, m.types.iter().map(|t| t.id())) {
+        #[cfg(walrus_verif)]
+        crate::verif::emit("swept", "types", id.index() as i64, -1);
         m.types.delete(id);
     }
     for id in unused(&used.funcs, m.funcs.iter().map(|t| t.id())) {
+        #[cfg(walrus_verif)]
+        crate::verif::emit("swept", "funcs", id.index() as i64, -1);
         m.funcs.delete(id);
     }
 }
